@@ -41,7 +41,14 @@ def _init_worker(engine_name):
 
 def _run_one(engine, prop, seed, tier, fault_free):
     case = engine.generate(prop, seed, tier, fault_free=fault_free)
-    r = isolated(engine.execute, case) if getattr(engine, "ISOLATE", True) else engine.execute(case)
+    try:
+        r = isolated(engine.execute, case) if getattr(engine, "ISOLATE", True) else engine.execute(case)
+    except IsolationError as e:
+        # the run died outside every oracle (an exception nobody expected, a hang): it proves
+        # nothing either way.  It must not take the other runs of the batch with it: it is
+        # counted, and a batch with dead runs and no violation is a harness error, never a pass
+        r = {"violation": None, "stats": {"runs_died_outside_oracles": 1}, "nontrivial": False,
+             "fingerprint": None, "log_digest": "died", "died": str(e)[-700:]}
     r["seed"] = seed
     r["fault_free"] = fault_free
     return r
@@ -116,9 +123,12 @@ class Agg:
         self.samples = []
         self.ops = 0
         self.extra = {}
+        self.died = []
 
     def add(self, r):
         self.runs += 1
+        if r.get("died"):
+            self.died.append((r["seed"], r["died"]))
         for k, v in r["stats"].items():
             self.stats[k] = self.stats.get(k, 0) + v
         if r.get("nontrivial"):
@@ -219,6 +229,12 @@ def main(prop, engine, argv, quick_runs=4000, thorough_budget=900, selftest_seed
         code = _main(prop, engine, tier, seed0, runs, budget, selftest_seeds, t0, a, technique)
     except HarnessError as e:
         print(f"HARNESS-ERROR {e}", flush=True)
+        code = 2
+    except Exception as e:  # never exit 1 without a VIOLATION line, never exit 0 by accident
+        import traceback
+
+        traceback.print_exc()
+        print(f"HARNESS-ERROR unexpected {type(e).__name__}: {str(e)[-400:]}", flush=True)
         code = 2
     wd.cancel()
     return code
@@ -475,6 +491,14 @@ def _main(prop, engine, tier, seed0, runs, budget, selftest_seeds, t0, a, techni
                   "the code under test behaves differently from run to run")
         else:
             print(f"HARNESS-ERROR nondeterministic runs for seeds {st['mismatching_seeds']}")
+            exit_code = 2
+    died = agg_ff.died + agg_fi.died
+    if died:
+        if exit_code == 1:
+            print(f"  note: {len(died)} run(s) died outside every oracle (first: seed {died[0][0]})")
+        else:
+            print(f"HARNESS-ERROR {len(died)} run(s) died outside every oracle; first: seed "
+                  f"{died[0][0]}: ...{died[0][1][-400:]}")
             exit_code = 2
     stuck = [p for p in engine.REQUIRED_PROBES.get(prop, []) if not stats.get(p)]
     if stuck and total >= 1000:
